@@ -95,7 +95,17 @@ var c01Resps = []harness.Resp{
 	{Status: 200, Stream: &harness.BodyStream{Chunks: [][]byte{bytesOf('A', 40)}, Declared: 40}},
 	{Status: 200, Stream: &harness.BodyStream{Chunks: [][]byte{bytesOf('B', 25), bytesOf('b', 15)}, Declared: -1}},
 	{Status: 200, Body: bytesOf('C', 40)},
+	// 12-16 (family "response" only): what handlers do with the header API: repeated fields in order, cookies,
+	// empty values, redirects, a content type of their own, names in odd case
+	{Status: 200, Headers: [][2]string{{"Set-Cookie", "a=1; Path=/"}, {"Set-Cookie", "b=2; HttpOnly"}, {"X-Dup", "1"}, {"X-Dup", "2"}, {"X-Dup", "1"}, {"X-Empty", ""}}, Body: []byte("c")},
+	{Status: 302, Headers: [][2]string{{"Location", "https://example.com/next?a=b"}, {"Content-Type", "application/json"}}},
+	{Status: 200, Headers: [][2]string{{"Content-Type", "application/json"}, {"Cache-Control", "no-store"}, {"cache-control", "private"}, {"ETag", "\"x\""}}, Body: []byte("{}")},
+	{Status: 500, Headers: [][2]string{{"x-lower", "l"}, {"X-UPPER", "U"}, {"Vary", "accept"}, {"Vary", "origin"}}, Stream: &harness.BodyStream{Chunks: [][]byte{[]byte("err")}, Declared: -1}},
+	{Status: 200, Headers: [][2]string{{"Content-Encoding", "identity"}, {"Content-Language", "en"}, {"Server", "s/1"}, {"Age", "0"}}, Body: []byte("d")},
 }
+
+// c01BaseResps: the shapes that take part in the interleaving products
+const c01BaseResps = 12
 
 // track builds the frame track of plan p for stream id. Frames of a header
 // block are marked contiguous (cont=true on all but the first).
@@ -739,8 +749,8 @@ func runC01(c *fw.Ctx) {
 					if thorough || len(rs) == 2 {
 						// response shapes: full product for 2 streams, diagonal + rotations for 3
 						if len(rs) == 2 {
-							for a := range c01Resps {
-								for b := range c01Resps {
+							for a := range c01Resps[:c01BaseResps] {
+								for b := range c01Resps[:c01BaseResps] {
 									if !thorough && (a+b)%3 != 0 && a != b {
 										continue
 									}
@@ -748,8 +758,8 @@ func runC01(c *fw.Ctx) {
 								}
 							}
 						} else {
-							for a := range c01Resps {
-								do(c01Scenario{Family: "interleave", Prelude: prelude, Plans: plans, Order: ord, Finish: fin, Resp: []int{a, (a + 3) % len(c01Resps), (a + 5) % len(c01Resps)}})
+							for a := range c01Resps[:c01BaseResps] {
+								do(c01Scenario{Family: "interleave", Prelude: prelude, Plans: plans, Order: ord, Finish: fin, Resp: []int{a, (a + 3) % c01BaseResps, (a + 5) % c01BaseResps}})
 							}
 						}
 					}
